@@ -1078,6 +1078,9 @@ e_rec_cbc_decrypt(void)
 	PUBLIC(dlen, sizeof *dlen);
 	out_u32("accepted", res != NULL);
 	expect("verdict", res != NULL, want);
+	/* what an observer legitimately knows: record length and verdict (used to
+	   group runs in the differential confirmation of memcheck artefacts) */
+	printf("SHAPE reclen=%lu accepted=%d\n", (unsigned long)reclen, res != NULL);
 	if (res != NULL) {
 		out_u32("len", (uint32_t)*dlen);
 		out_bytes("pt", res, *dlen);
